@@ -9,6 +9,7 @@ import (
 	"context"
 	"errors"
 	"fmt"
+	"io"
 	"net/http"
 	"net/http/httptest"
 	"slices"
@@ -226,6 +227,38 @@ func TestVerifC14(t *testing.T) {
 	// ---- how scopes are spelled: names that are prefixes, suffixes or substrings of one another, that
 	// differ in case only, granted entries that hold several names in one string.  Holding a scope is
 	// holding exactly that string.
+	// ---- request shapes: the decision is about the credential; nothing else about a request (method, CORS
+	// preflight headers, upgrade requests, paths, tokens offered elsewhere than in Authorization) exempts it
+	shapes := env.NewCases(res, "request-shapes")
+	synctest.Test(t, func(t *testing.T) {
+		defer func() { c14Shape = nil }()
+		now := time.Now()
+		for _, sh := range c14Shapes() {
+			for _, h := range c14Headers() {
+				for _, vo := range []string{"ok", "invalid", "oauth", "other", "nilinfo"} {
+					for _, rg := range [][2][]string{{nil, nil}, {{"a"}, {"a"}}, {{"a"}, {"b"}}} {
+						for _, ex := range []struct {
+							name string
+							at   time.Time
+						}{{"now+1h", now.Add(time.Hour)}, {"long-ago", now.Add(-24 * time.Hour)}, {"zero", time.Time{}}} {
+							for _, optsNil := range []bool{false, true} {
+								if optsNil && len(rg[0]) > 0 {
+									continue
+								}
+								idx, mine := shapes.Next()
+								if !mine {
+									continue
+								}
+								c14Shape = sh
+								c14One(shapes, idx, now, h, vo, rg[0], rg[1], ex.name, ex.at, 0, false, optsNil, "https://rs.example/.well-known/oauth-protected-resource")
+								c14Shape = nil
+							}
+						}
+					}
+				}
+			}
+		}
+	})
 	spell := env.NewCases(res, "scope-name-spellings")
 	names := []string{"a", "ab", "a:b", "A", "b", "mcp:tools", "mcp:tools:read", "mcp:tool", "read", "readonly", "thread", "s1", "s10", "s"}
 	grantOnly := []string{"", "a b", "mcp:tools mcp:tools:read", " a", "a ", "a,b"}
@@ -319,11 +352,73 @@ func c14Sequence(cases *verifx.Cases, idx int, now time.Time, req []string, gran
 // inner one decides, answers and hands to its handler is exactly what it would without the outer one.
 var c14Stacked bool
 
+// c14ReqShape: everything about a request other than its Authorization header.  The middleware's decision
+// depends on the credential alone: no method, path, query, body or other header makes a request exempt.
+type c14ReqShape struct {
+	name   string
+	method string
+	target string
+	body   string
+	ctype  string
+	header [][2]string
+}
+
+func (sh *c14ReqShape) build() *http.Request {
+	var body io.Reader
+	if sh.body != "" {
+		body = strings.NewReader(sh.body)
+	}
+	target := sh.target
+	if target == "" {
+		target = "http://rs.example/mcp"
+	}
+	r := httptest.NewRequest(sh.method, target, body)
+	if sh.ctype != "" {
+		r.Header.Set("Content-Type", sh.ctype)
+	}
+	for _, kv := range sh.header {
+		r.Header.Add(kv[0], kv[1])
+	}
+	return r
+}
+
+var c14Shape *c14ReqShape
+
+func c14Shapes() []*c14ReqShape {
+	var out []*c14ReqShape
+	for _, m := range []string{"GET", "POST", "DELETE", "HEAD", "OPTIONS", "PUT", "PATCH", "TRACE", "CONNECT"} {
+		out = append(out, &c14ReqShape{name: m, method: m})
+	}
+	cors := [][2]string{{"Origin", "https://app.example"}, {"Access-Control-Request-Method", "POST"}, {"Access-Control-Request-Headers", "authorization, content-type"}}
+	out = append(out,
+		&c14ReqShape{name: "OPTIONS CORS preflight", method: "OPTIONS", header: cors},
+		&c14ReqShape{name: "OPTIONS with Origin only", method: "OPTIONS", header: cors[:1]},
+		&c14ReqShape{name: "POST with CORS request headers", method: "POST", header: cors, body: "{}", ctype: "application/json"},
+		&c14ReqShape{name: "GET with Origin", method: "GET", header: cors[:1]},
+		&c14ReqShape{name: "GET websocket upgrade", method: "GET", header: [][2]string{{"Connection", "Upgrade"}, {"Upgrade", "websocket"}}},
+		&c14ReqShape{name: "GET event stream with Last-Event-ID", method: "GET", header: [][2]string{{"Accept", "text/event-stream"}, {"Last-Event-ID", "7"}}},
+		&c14ReqShape{name: "GET from loopback proxy headers", method: "GET", header: [][2]string{{"X-Forwarded-For", "127.0.0.1"}, {"X-Real-Ip", "127.0.0.1"}, {"Forwarded", "for=127.0.0.1"}}},
+		&c14ReqShape{name: "GET with a token in the query", method: "GET", target: "http://rs.example/mcp?access_token=tok"},
+		&c14ReqShape{name: "POST with a token in a form body", method: "POST", body: "access_token=tok", ctype: "application/x-www-form-urlencoded"},
+		&c14ReqShape{name: "GET with a token cookie", method: "GET", header: [][2]string{{"Cookie", "access_token=tok; Authorization=Bearer tok"}}},
+		&c14ReqShape{name: "GET with Proxy-Authorization", method: "GET", header: [][2]string{{"Proxy-Authorization", "Bearer tok"}}},
+		&c14ReqShape{name: "GET well-known path", method: "GET", target: "http://rs.example/.well-known/oauth-protected-resource"},
+		&c14ReqShape{name: "GET health path", method: "GET", target: "http://rs.example/healthz"},
+		&c14ReqShape{name: "GET on localhost", method: "GET", target: "http://localhost:8080/mcp"},
+		&c14ReqShape{name: "POST session request", method: "POST", body: `{"jsonrpc":"2.0","id":1,"method":"ping"}`, ctype: "application/json", header: [][2]string{{"Mcp-Session-Id", "s1"}, {"Mcp-Protocol-Version", "2025-06-18"}}},
+		&c14ReqShape{name: "DELETE session", method: "DELETE", header: [][2]string{{"Mcp-Session-Id", "s1"}}},
+	)
+	return out
+}
+
 func c14One(cases *verifx.Cases, idx int, now time.Time, h c14Header, vo string, req, gr []string, exName string, exp time.Time, skew time.Duration, allowMissing, optsNil bool, url string) {
 	desc := func() string {
 		st := ""
 		if c14Stacked {
 			st = " behind an outer RequireBearerToken with its own verifier"
+		}
+		if c14Shape != nil {
+			st += " request shape: " + c14Shape.name
 		}
 		return fmt.Sprintf("header=%s verifier=%s required=%v granted=%v exp=%s skew=%v allowMissing=%v optsNil=%v url=%q%s", h.name, vo, req, gr, exName, skew, allowMissing, optsNil, url, st)
 	}
@@ -379,6 +474,9 @@ func c14One(cases *verifx.Cases, idx int, now time.Time, h c14Header, vo string,
 	once := func(rep int) bool {
 		ran, verifierCalls, seen = 0, 0, nil
 		r := httptest.NewRequest("GET", "http://rs.example/mcp", nil)
+		if c14Shape != nil {
+			r = c14Shape.build()
+		}
 		if h.set {
 			r.Header.Set("Authorization", h.value)
 		}
@@ -389,6 +487,9 @@ func c14One(cases *verifx.Cases, idx int, now time.Time, h c14Header, vo string,
 			mw(inner).ServeHTTP(w, r)
 		}()
 		fail := func(sig, format string, a ...any) {
+			if c14Shape != nil {
+				sig += " request-shape=" + c14Shape.name
+			}
 			if rep > 0 {
 				sig += " on a repeated request"
 				format = fmt.Sprintf("request #%d with the same token: ", rep+1) + format
